@@ -32,6 +32,10 @@ VerdictFrame ==
                      /\ IsUnit(Ev.ueJ) /\ IsUnit(Ev.peJ))
 \cup (IF Ev.inr = 0 THEN {} ELSE
       Viol("NORM_OF_DATE", Within(Ev.nd, Ev.R, Dec(1, 5)))
+ \* the mean-equinox-of-date rectangular coordinates are the Sun's ecliptic place (use = its unit vector, from the
+ \* library's own geometric geocentric position) turned by the library's own mean obliquity (ce0 se0, verified)
+ \cup Viol("WITNESS", IsUnit(Ev.use) /\ IsSC(Ev.ce0, Ev.se0))
+ \cup Viol("FRAME_OF_DATE", TwoArcsec(Ev.ud, RotXInv(Ev.use, Ev.ce0, Ev.se0)))
  \cup Viol("NORM_J2000", Within(Ev.nJ, Ev.R, Dec(1, 5)))
  \cup Viol("NORM_B1950", Within(Ev.nB, Ev.R, Dec(1, 5)))
  \cup Viol("NORM_EQUINOX", Within(Ev.nE, Ev.R, Dec(1, 5)))
@@ -43,6 +47,9 @@ VerdictFrame ==
  \cup Viol("FRAME_J2000_COARSE", SameDirection(Ev.uJ, Ev.pJ, 7, 2))          \* 0.07 deg = 252 arcsec
  \cup Viol("FRAME_EQUINOX_COARSE", SameDirection(Ev.uE, Ev.pE, 7, 2))
  \cup Viol("FRAME_EARTH_J2000_COARSE", SameDirection(Ev.ueJ, Ev.peJ, 7, 2))
+ \* the known table defect is in the LONGITUDE series: the ecliptic latitude of the two J2000 positions (third component =
+ \* sine of the latitude) still has to agree to 2 arcsec (1e-5)
+ \cup Viol("FRAME_EARTH_J2000_LATITUDE", Within(Ev.ueJ[3], Ev.peJ[3], Dec(1, 5)))
  \cup Viol("FRAME_B1950_COARSE", SameDirection(Ev.uB, Ev.pB, 25, 1)))        \* 2.5 deg
 
 \* IAU (1976) mean obliquity: 23 26 21.448 - 46.8150 T - 0.00059 T^2 + 0.001813 T^3 arcsec
